@@ -79,6 +79,9 @@ def real_op(fsys, op):
         if k == "removedir":
             fsys.removedir(op[1])
             return "ok true"
+        if k == "removetree":
+            fsys.removetree(op[1])
+            return "ok true"
         if k == "fwrite":
             h = fsys.openbin(op[1], "r+b")
             h.seek(op[2])
@@ -258,7 +261,7 @@ def op_line(op, keys):
         return "fs op create %s %d %d" % (p, sl, 1 if op[2] else 0)
     if k == "makedir":
         return "fs op makedir %s %d" % (p, sl)
-    if k in ("remove", "removedir"):
+    if k in ("remove", "removedir", "removetree"):
         return "fs op %s %s" % (k, p)
     if k == "fwrite":
         return "fs op fwrite %s %d %d" % (p, op[2], op[3])
@@ -347,6 +350,8 @@ def run_program(cfg, ops, res, device_every=1, stop_after=None):
     # C12's premise per primitive: data-area writes of a call go only to clusters of its target, of the target's
     # parent directory (the root's chain on FAT32) and to clusters that were free before the call
     for i, op in enumerate(ops[:len(results)]):
+        if op[0] == "removetree":
+            continue        # a compound call: its footprint is the subtree
         bad = footprint_violations(op, keys, reals[i][0], reals[i + 1][0], wlogs[i], geo)
         stats["data_writes"] = stats.get("data_writes", 0) + sum(1 for p_, n_ in wlogs[i] if p_ >= geo[0])
         if bad:
@@ -491,12 +496,20 @@ def gen_program(r, nops, bpc, pool, deep=False):
             p = r.choice(sorted(files)) if files and r.random() < 0.85 else fresh()
             ops.append(["remove", p])
             files.pop(p, None)
-        elif c < 0.96:
+        elif c < 0.93:
             ds = [d for d in dirs if d != "/"]
             p = r.choice(ds) if ds and r.random() < 0.85 else fresh()
             ops.append(["removedir", p])
             if p in dirs and not any(x.startswith(p + "/") for x in list(files) + dirs):
                 dirs.remove(p)
+        elif c < 0.96:
+            p = r.choice(dirs) if r.random() < 0.8 else (r.choice(sorted(files)) if files and r.random() < 0.5 else fresh())
+            ops.append(["removetree", p])
+            if p in dirs:
+                pre = p.rstrip("/") + "/"
+                for x in [x for x in files if x.startswith(pre)]:
+                    files.pop(x)
+                dirs[:] = [d for d in dirs if d == "/" or not (d == p or d.startswith(pre))]
         else:
             # wrong-kind / missing-parent calls
             p = (r.choice(sorted(files)) + "/" + r.choice(pool)) if files else fresh() + "/x"
